@@ -12,7 +12,7 @@ use serde_json::{json, Value};
 pub const SPEC: PropSpec = PropSpec {
     id: "C16",
     level: "exploration",
-    rule: "Cases = (input bytes, configuration c). The real slice reader is run twice, under the neutral configuration and under c, and the second trace must equal T_c(first trace): Empty -> Start+End of the same name, Text trimmed at the configured sides and dropped when it becomes empty, End names trimmed, DoubleHyphenInComment error for comments whose body contains '--' or ends in '-', name-check errors according to an open-element stack replayed over the neutral trace; the position after every source construct and every syntax error must be unchanged. Exhaustive: every byte string up to length N over the 13 markup bytes x all 128 configurations; atom sequences, pool, grammar documents, mutants, truncations, corpus x 16 random configurations. Non-trivial = input contains '<' and c is not neutral.",
+    rule: "Cases = (input bytes, configuration c). The real reader is run twice, under the neutral configuration (slice source) and under c (slice source, and for a quarter of the non-enumerated cases also a buffered source delivering 1-byte or random pieces), and the second trace must equal T_c(first trace): Empty -> Start+End of the same name, Text trimmed at the configured sides and dropped when it becomes empty, End names trimmed, DoubleHyphenInComment error for comments whose body contains '--' or ends in '-', name-check errors according to an open-element stack replayed over the neutral trace; the position after every source construct and every syntax error must be unchanged. Exhaustive: every byte string up to length N over the 13 markup bytes x all 128 configurations; atom sequences, pool, grammar documents, mutants, truncations, corpus x 16 random configurations. Non-trivial = input contains '<' and c is not neutral.",
     assumptions: &[
         "the neutral trace itself is judged by C01; here it is only the baseline",
         "strings inside name-mismatch errors are compared only for inputs that cannot switch the decoder away from UTF-8",
@@ -29,6 +29,7 @@ pub const SPEC: PropSpec = PropSpec {
         "name_errors",
         "ws_only_text_before_markup",
         "ws_only_text_at_eof",
+        "buffered_source_runs",
     ],
     run,
     replay,
@@ -49,6 +50,7 @@ pub struct Local {
     ws_before_markup: u64,
     ws_at_eof: u64,
     f6_hits: u64,
+    buffered: u64,
 }
 impl Local {
     fn new() -> Self {
@@ -64,6 +66,7 @@ impl Local {
             ws_before_markup: 0,
             ws_at_eof: 0,
             f6_hits: 0,
+            buffered: 0,
         }
     }
 }
@@ -226,8 +229,20 @@ fn same_obs(a: &Obs, b: &Obs, strings: bool) -> bool {
 
 /// Err(detail) on a discrepancy; Ok(number of F6-signature hits) otherwise.
 fn check(input: &[u8], c: u8, known_f6: bool, loc: &mut Local) -> Result<u64, String> {
+    check_src(input, c, known_f6, None, loc)
+}
+
+/// `cuts` = Some(..): the configured run reads from a buffered source that delivers these pieces
+/// (the options must act the same way on every source kind)
+fn check_src(input: &[u8], c: u8, known_f6: bool, cuts: Option<Vec<usize>>, loc: &mut Local) -> Result<u64, String> {
     let neutral = trace_slice(input, &CfgHist::fixed(CFG_NEUTRAL));
-    let real = trace_slice(input, &CfgHist::fixed(c));
+    let real = match cuts {
+        None => trace_slice(input, &CfgHist::fixed(c)),
+        Some(cuts) => {
+            loc.buffered += 1;
+            crate::obs::trace_buffered(crate::sources::ChunkedRead::new(input, cuts), &CfgHist::fixed(c)).0
+        }
+    };
     let exp = transform(&neutral, c, loc);
     let strings = !(find_sub(input, b"encoding").is_some()
         || input.starts_with(&[0xFE, 0xFF])
@@ -325,6 +340,43 @@ fn case_json(input: &[u8], c: u8) -> Value {
     json!({"input": input_json(input), "config": c, "config_show": cfg_show(c)})
 }
 
+/// the same relation with the configured run on a buffered source (piece size 1 or random pieces)
+fn run_case_buffered(ctx: &mut Ctx, loc: &mut Local, input: &[u8], c: u8, r: &mut crate::rng::Rng) -> bool {
+    if input.len() < 2 {
+        return true;
+    }
+    let fmin = if matches!(input.first(), Some(0xEF) | Some(0xFE) | Some(0xFF) | Some(0)) { 4 } else { 0 };
+    let cuts = if r.bool() {
+        crate::sources::cuts_for_piece(input.len(), 1, fmin)
+    } else {
+        let mut v = Vec::new();
+        let mut p = fmin.max(1 + r.below(3));
+        while p < input.len() {
+            v.push(p);
+            p += 1 + r.below(5);
+        }
+        v
+    };
+    let case = json!({"input": input_json(input), "config": c, "config_show": cfg_show(c), "cuts": cuts});
+    ctx.journal(|| case.clone());
+    ctx.eval(crate::rng::H::new().bytes(input).u64(c as u64).u64(cuts.len() as u64 + 1000).finish(), input.contains(&b'<') && c != CFG_NEUTRAL);
+    let known = ctx.is_known("F6");
+    let res = guarded(|| check_src(input, c, known, Some(cuts.clone()), loc)).unwrap_or_else(Err);
+    match res {
+        Err(d) => {
+            ctx.violation(case, format!("buffered source with cuts {:?}: {}", &cuts[..cuts.len().min(16)], d));
+            !ctx.full()
+        }
+        Ok(f6) => {
+            for _ in 0..f6 {
+                ctx.known_hit("F6");
+            }
+            loc.f6_hits += f6;
+            true
+        }
+    }
+}
+
 fn run_case(ctx: &mut Ctx, loc: &mut Local, input: &[u8], c: u8, src: Src) -> bool {
     ctx.journal(|| case_json(input, c));
     let h = crate::rng::H::new().bytes(input).u64(c as u64).finish();
@@ -379,10 +431,14 @@ fn run(ctx: &mut Ctx) {
         true
     });
     ctx.exhaustive("every enumerated input is crossed with all 128 reader configurations");
+    let mut rb = ctx.rng(21);
     for (i, s) in SPECIAL.iter().enumerate() {
         if ctx.owns(i as u64) {
             for c in 0..128u8 {
                 if !run_case(ctx, &mut loc, s.as_bytes(), c, Src::Pool) {
+                    break;
+                }
+                if !run_case_buffered(ctx, &mut loc, s.as_bytes(), c, &mut rb) {
                     break;
                 }
             }
@@ -401,9 +457,12 @@ fn run(ctx: &mut Ctx) {
     };
     for_each_input(ctx, &plan, &mut |ctx, input, src, r| {
         let n = if src == Src::Tokens { 4 } else { 16 };
-        for _ in 0..n {
+        for k in 0..n {
             let c = (r.next() & 0x7F) as u8;
             if !run_case(ctx, &mut loc, input, c, src) {
+                return false;
+            }
+            if k % 4 == 0 && !run_case_buffered(ctx, &mut loc, input, c, r) {
                 return false;
             }
         }
@@ -424,13 +483,15 @@ fn run(ctx: &mut Ctx) {
     ctx.add("ws_only_text_before_markup", loc.ws_before_markup);
     ctx.add("ws_only_text_at_eof", loc.ws_at_eof);
     ctx.add("F6_signature_hits", loc.f6_hits);
+    ctx.add("buffered_source_runs", loc.buffered);
 }
 
 fn replay(case: &Value, ctx: &mut Ctx) -> Option<String> {
     let input = input_from_json(&case["input"]);
     let c = case["config"].as_u64().unwrap_or(0) as u8;
     let mut loc = Local::new();
-    match check(&input, c, ctx.is_known("F6"), &mut loc) {
+    let cuts: Option<Vec<usize>> = case["cuts"].as_array().map(|a| a.iter().map(|x| x.as_u64().unwrap_or(0) as usize).collect());
+    match check_src(&input, c, ctx.is_known("F6"), cuts, &mut loc) {
         Err(d) => Some(d),
         Ok(_) => None,
     }
